@@ -1,0 +1,56 @@
+//go:build verif
+// +build verif
+
+package leaves
+
+import "time"
+
+// VerifGroupSparseHistory exports groupSparseHistory.
+func VerifGroupSparseHistory(sampling, granularity int, history map[int]map[int]int64, lastTick int) ([][]int64, int) {
+	ba := &BurndownAnalysis{Sampling: sampling, Granularity: granularity}
+	return ba.groupSparseHistory(history, lastTick)
+}
+
+// VerifNewDevsResult builds a DevsResult including its unexported fields.
+func VerifNewDevsResult(ticks map[int]map[int]*DevTick, dict []string, tickSize int64) DevsResult {
+	return DevsResult{Ticks: ticks, reversedPeopleDict: dict, tickSize: time.Duration(tickSize)}
+}
+
+// VerifDevsDict returns the identity list of a DevsResult.
+func VerifDevsDict(r DevsResult) []string { return r.reversedPeopleDict }
+
+// VerifRoute feeds (currentTime, previousTime, delta) reports through updateGlobal/updateAuthor/updateMatrix.
+func VerifRoute(peopleNumber int, evs [][3]int) (map[int]map[int]int64, []map[int]map[int]int64, []map[int]int64) {
+	ba := &BurndownAnalysis{PeopleNumber: peopleNumber}
+	ba.globalHistory = sparseHistory{}
+	ba.peopleHistories = make([]sparseHistory, peopleNumber)
+	ba.matrix = make([]map[int]int64, peopleNumber)
+	for _, e := range evs {
+		ba.updateGlobal(e[0], e[1], e[2])
+		if peopleNumber > 0 {
+			ba.updateAuthor(e[0], e[1], e[2])
+			ba.updateMatrix(e[0], e[1], e[2])
+		}
+	}
+	people := make([]map[int]map[int]int64, peopleNumber)
+	for i, h := range ba.peopleHistories {
+		people[i] = h
+	}
+	return ba.globalHistory, people, ba.matrix
+}
+
+// VerifBurndownState dumps the per-file interval lists and the sparse histories of an analysis instance.
+func VerifBurndownState(ba *BurndownAnalysis) (files map[string][][2]int, global map[int]map[int]int64,
+	people []map[int]map[int]int64, matrix []map[int]int64) {
+	files = map[string][][2]int{}
+	for name, f := range ba.files {
+		var nodes [][2]int
+		f.ForEach(func(line, value int) { nodes = append(nodes, [2]int{line, value}) })
+		files[name] = nodes
+	}
+	people = make([]map[int]map[int]int64, len(ba.peopleHistories))
+	for i, h := range ba.peopleHistories {
+		people[i] = h
+	}
+	return files, ba.globalHistory, people, ba.matrix
+}
